@@ -1,5 +1,6 @@
 import Vorbis.File.Model
 import Vorbis.Props.C07
+import Vorbis.Proofs.FileInv
 namespace Vorbis.Props.C12
 open Vorbis Vorbis.File Vorbis.Block Vorbis.Props Vorbis.Props.C07
 set_option linter.unusedSimpArgs false
@@ -28,37 +29,6 @@ theorem C12_seek_error_state (rc : Int) (s : VF) :
     ((seekError rc).run s).2.closes = s.closes := by
   simp [seekError, decodeClear, StateT.run, bind, StateT.bind, modify, modifyGet, MonadStateOf.modifyGet, StateT.modifyGet, pure, StateT.pure]
 
-theorem sameFile_refl (s : VF) : SameFile s s := ⟨rfl, rfl, rfl, rfl, rfl, rfl, rfl, rfl⟩
-theorem sameFile_symm {a b : VF} (h : SameFile a b) : SameFile b a :=
-  ⟨h.tab.symm, h.infos.symm, h.seekable.symm, h.end_.symm, h.hs.symm, h.hdrkey.symm, h.source.symm, h.closes.symm⟩
-theorem sameFile_trans {a b c : VF} (h : SameFile a b) (g : SameFile b c) : SameFile a c :=
-  ⟨h.tab.trans g.tab, h.infos.trans g.infos, h.seekable.trans g.seekable, h.end_.trans g.end_, h.hs.trans g.hs, h.hdrkey.trans g.hdrkey,
-   h.source.trans g.source, h.closes.trans g.closes⟩
-
-/-- the error exit leaves a handle on the same file, in a consistent (decoder-less) state -/
-theorem seekError_same (rc : Int) (s : VF) : SameFile s ((seekError rc).run s).2 ∧ DecWF ((seekError rc).run s).2 := by
-  simp [seekError, decodeClear, StateT.run, bind, StateT.bind, modify, modifyGet, MonadStateOf.modifyGet, StateT.modifyGet, pure, StateT.pure]
-  refine ⟨⟨rfl, rfl, rfl, rfl, rfl, rfl, rfl, rfl⟩, ?_, ?_, ?_⟩
-  · intro h; exact absurd (show OPENED ≥ STREAMSET ∨ OPENED > STREAMSET from by first | exact Or.inl h | exact Or.inr h) (by decide)
-  · intro h; exact absurd (show OPENED ≥ STREAMSET ∨ OPENED > STREAMSET from by first | exact Or.inl h | exact Or.inr h) (by decide)
-  · show OPENED ≤ INITSET; decide
-
-/-- every failing plan of a page seek: same file, consistent state, decoder dumped, position unknown -/
-theorem failing_plan_same (f : Int → M Int) (p : SeekPlan) (s : VF) (hp : (∃ rc c, p = .fail rc c) ∨ (∃ l c o rc, p = .failSel l c o rc)) :
-    SameFile s ((execPlan f p).run s).2 ∧ DecWF ((execPlan f p).run s).2 := by
-  rcases hp with ⟨rc, c, rfl⟩ | ⟨l, c, o, rc, rfl⟩
-  · simp [execPlan, setCur, seekError, decodeClear, StateT.run, bind, StateT.bind, modify, modifyGet, MonadStateOf.modifyGet, StateT.modifyGet, pure, StateT.pure]
-    refine ⟨⟨rfl, rfl, rfl, rfl, rfl, rfl, rfl, rfl⟩, ?_, ?_, ?_⟩
-    · intro h; exact absurd (show OPENED ≥ STREAMSET ∨ OPENED > STREAMSET from by first | exact Or.inl h | exact Or.inr h) (by decide)
-    · intro h; exact absurd (show OPENED ≥ STREAMSET ∨ OPENED > STREAMSET from by first | exact Or.inl h | exact Or.inr h) (by decide)
-    · show OPENED ≤ INITSET; decide
-  · simp [execPlan, setCur, selectLink, seekError, decodeClear, StateT.run, bind, StateT.bind, modify, modifyGet, MonadStateOf.modifyGet, StateT.modifyGet, pure, StateT.pure]
-    refine ⟨?_, ?_, ?_, ?_⟩
-    · unfold selectLinkF; split <;> exact ⟨rfl, rfl, rfl, rfl, rfl, rfl, rfl, rfl⟩
-    · intro h; exact absurd (show OPENED ≥ STREAMSET ∨ OPENED > STREAMSET from by first | exact Or.inl h | exact Or.inr h) (by decide)
-    · intro h; exact absurd (show OPENED ≥ STREAMSET ∨ OPENED > STREAMSET from by first | exact Or.inl h | exact Or.inr h) (by decide)
-    · show OPENED ≤ INITSET; decide
-
 /-- **full recovery**: take any handle, let any seek on it fail (every failing exit of the page search: before or after a link was
     selected, with any code), then seek to `pos`; take a handle on the same file that never failed and seek to `pos`: same return
     value and *identical* handle state, hence identical audio from every later read -/
@@ -84,5 +54,23 @@ example (f : Int → M Int) :
   exact C12_state_after_failure_is_forgotten C07.exPhys f 200 C07.exUsed C07.exFresh _ (Or.inl ⟨_, _, rfl⟩)
     ⟨rfl, rfl, rfl, rfl, rfl, rfl, rfl, rfl⟩ (by decide) rfl
     ⟨fun h => absurd h (by decide), fun h => absurd h (by decide), by decide⟩ (by decide +kernel) l c o po h
+
+/-- **the consistency the recovery theorems assume is an invariant**: start from any seekable handle without stream state (freshly
+    opened, or left behind by ANY failed seek), issue any sequence of reads and sample-accurate seeks: every state reached is
+    consistent (`DecWF`), so `C12_state_after_failure_is_forgotten` / `C07_seek_history_independent` apply at every point of every
+    such history -/
+theorem C12_consistency_is_invariant (ph : Phys) (f : Int → M Int) (s t : VF) (hk : s.seekable = true) (hr : s.ready ≤ OPENED)
+    (h : Proofs.FileInv.Reach ph f s t) : DecWF t :=
+  (Proofs.FileInv.reach_sinv ph f s t h (Proofs.FileInv.sinv_of_opened s hk hr)).2
+
+/-- non-vacuity: from the freshly opened example handle, seek to 200 (the plan lands), then read 50 -/
+example (f : Int → M Int) : DecWF ((readFloat C07.exPhys 50).run ((pcmSeek C07.exPhys f 200).run C07.exFresh).2).2 := by
+  apply C12_consistency_is_invariant C07.exPhys f C07.exFresh _ rfl (by decide)
+  apply Proofs.FileInv.Reach.read
+  apply Proofs.FileInv.Reach.seek
+  · exact Proofs.FileInv.Reach.refl
+  · intro l c o r h
+    obtain ⟨l', c', o', p', h'⟩ := C07.isLand_iff _ (show C07.SeekPlan.isLand (planSeekPage C07.exPhys C07.exFresh.tab 200) = true by decide +kernel)
+    rw [h'] at h; cases h
 
 end Vorbis.Props.C12
